@@ -623,14 +623,18 @@ class Model():
             left_field_name, right_field_name = \
                 self.get_association_field_names(association)
 
-            if asset in getattr(association, left_field_name):
-                opposite_field_name = right_field_name
-            else:
-                opposite_field_name = left_field_name
-
-            if opposite_field_name == field_name:
+            # The asset can be part of both fields (e.g. an association
+            # between two assets of the same type, or with itself), so both
+            # directions have to be considered.
+            if asset in getattr(association, left_field_name) and \
+                    right_field_name == field_name:
                 associated_assets.extend(
-                    getattr(association, opposite_field_name)
+                    getattr(association, right_field_name)
+                )
+            if asset in getattr(association, right_field_name) and \
+                    left_field_name == field_name:
+                associated_assets.extend(
+                    getattr(association, left_field_name)
                 )
 
         return associated_assets
